@@ -58,7 +58,9 @@ CFG = {
                   "pager_draw_body_eq_model, pager_layout_body_eq_model, scrollbar_draw_body_eq_model) and over whole histories "
                   "(list_history_body_eq_model, pager_history_body_eq_model); pager_offset_clamped_body: after ANY history incl. width changes and "
                   "an Offset written before the first Draw, the executed Draw leaves 0 <= Offset <= max 0 (lines - h) for the lines laid out for "
-                  "that window's width. F119i evaluated: a cap on zero-progress iterations is not a repair (zero_heights_then_content: k empty "
+                  "that window's width. F119i characterised from both sides: an endless Builder whose widgets make progress (height + gap >= 1) is drawn in one bounded frame "
+                  "(endless_builder_with_progress_returns: the executed Draw returns within H + Mx + 3 units of fuel with at most max 1 H children, from the "
+                  "initial scroll state), so Draw fails to return only for an endless Builder of zero-progress widgets; a cap on zero-progress iterations is not a repair (zero_heights_then_content: k empty "
                   "widgets followed by a visible one are drawn with the visible one at row 0, for every k).",
     "level_note": "Proved for all inputs/histories: simple_list_safe, simple_list_selected_visible, simple_list_rows_in_order, "
                   "pager_complete, pager_offset_clamped, pager_scroll_history, pager_draw_rows, pager_row_keeps_characters "
@@ -98,7 +100,7 @@ CFG = {
                   "Model/WidExec.lean's semantics is Go's for this subset (every sl/pg/sb op is run through it beside the model: 0 disagreements). "
                   "Modelled, not verified: pointer aliasing of pager lines (value + shared flag), the Fill cell, styles beyond the attribute.",
     "assumptions": [
-        "Dynamic list: the Builder has fewer than 2^63 items and is prefix-closed (nil from the first missing index on); an endless Builder is covered only by F119i (Draw does not return when all its widgets have height 0 and the gap is 0)",
+        "Dynamic list: the Builder has fewer than 2^63 items and is prefix-closed (nil from the first missing index on); an endless Builder is covered by F119i only: Draw does not return when all its widgets have height 0 and the gap is 0 (endless_builder_never_returns) and returns within a bounded frame when every widget has height + gap >= 1 (endless_builder_with_progress_returns, initial scroll state)",
         "integer arithmetic of widgets/list, widgets/pager and widgets/scrollbar does not overflow Go's int (64 bit): index+height, ViewHeight*h, Top*h stay below 2^63 (the models use unbounded integers)",
         "Draw contexts are bounded (Max.Width, Max.Height != 65535), as Dynamic.Draw itself requires",
     ],
